@@ -188,14 +188,17 @@ def Index.retire (ix : Index) (dst : Cid) : Index := { ix with ids := aerase dst
 def eraseAll (cs : List Cid) (l : List (Cid × Nat)) : List (Cid × Nat) :=
   cs.foldl (fun l c => aerase c l) l
 
-/-- `ConnectionIndex::remove` -/
-def Index.remove (ix : Index) (conn : Meta) : Option Index :=
+/-- `ConnectionIndex::remove`: the tuple / remote entries are dropped only when they still belong to the
+    connection being removed (a newer zero-length-CID connection may have claimed the key since) -/
+def Index.remove (ix : Index) (ch : Nat) (conn : Meta) : Option Index :=
   match (if conn.side = .server then ix.removeInitial conn.initCid else some ix) with
   | none => none
   | some ix1 =>
     let ix2 := { ix1 with ids := eraseAll (conn.locCids.map (fun (e : Nat × Cid) => e.2)) ix1.ids }
-    let ix3 := { ix2 with inRemotes := aerase conn.addresses ix2.inRemotes }
-    let ix4 := { ix3 with outRemotes := aerase conn.addresses.remote ix3.outRemotes }
+    let ix3 := if alookup conn.addresses ix2.inRemotes = some ch
+      then { ix2 with inRemotes := aerase conn.addresses ix2.inRemotes } else ix2
+    let ix4 := if alookup conn.addresses.remote ix3.outRemotes = some ch
+      then { ix3 with outRemotes := aerase conn.addresses.remote ix3.outRemotes } else ix3
     some (match conn.resetToken with
       | some k => { ix4 with tokens := aerase k ix4.tokens }
       | none => ix4)
@@ -321,7 +324,7 @@ def evRetire (s : State) (ch : Nat) (seq : Nat) (allowMoreCids : Bool) (cands : 
 def evDrained (s : State) (ch : Nat) : Option State :=
   match s.conns.tryRemove ch with
   | (some conn, conns) =>
-    match s.index.remove conn with
+    match s.index.remove ch conn with
     | none => none
     | some ix => some { s with conns := conns, index := ix }
   | (none, _) => some s                             -- "unknown connection drained"
@@ -355,7 +358,8 @@ def connect (s : State) (remote : Addr) (initCid : Cid) (tlsOk : Bool) (cands : 
     match newCid s ch cands with
     | none => none
     | some (locCid, s1, _) =>
-      if !tlsOk then some (s1, .invalidServerName)
+      if !tlsOk then                                     -- `start_session` failed: `index.retire(loc_cid)`
+        some ({ s1 with index := s1.index.retire locCid }, .invalidServerName)
       else match addConnection s1 ch initCid locCid ⟨remote, none⟩ .client none with
         | none => none
         | some s2 => some (s2, .ok ch)
